@@ -58,6 +58,27 @@ def case(rng):
             entries.append({'kind': 'ok', 'stmts': [Fn(name, params, body)]})
             fns.append((name, ar))
             tags.add('fn')
+        elif c < 0.36 and (lets or fns or objs):
+            # earlier-line symbols used inside functions nested one, two or three levels deep on a later line
+            name = 'nf%d' % uniq()
+            e = num_expr()
+            depth = r.choice([1, 2, 2, 3])
+            own_capture = r.random() < 0.5
+            inner = Lambda([], Bin('+', e, Var('own')) if own_capture else e, True)
+            if depth == 1:
+                body = [Let('own', Num(uniq())), Let('g', inner), Return(Call(Var('g'), []))]
+            elif depth == 2:
+                body = [Let('own', Num(uniq())),
+                        Fn('mid', [], [Return(inner)]), Return(Call(Call(Var('mid'), []), []))]
+            else:
+                body = [Let('own', Num(uniq())),
+                        Fn('mid', [], [Fn('low', [], [Return(inner)]), Return(Call(Var('low'), []))]),
+                        Return(Call(Call(Var('mid'), []), []))]
+            if not own_capture:
+                body = body[1:]
+            entries.append({'kind': 'ok', 'stmts': [Fn(name, [], body)]})
+            fns.append((name, 0))
+            tags.add('nested_fn_depth%d%s' % (depth, '_own_capture' if own_capture else ''))
         elif c < 0.44:
             name = 'K%d' % uniq()
             parent = None
